@@ -439,6 +439,11 @@ func (p *proxyConn) writeResponse(res *http.Response) error {
 		if req.Method == http.MethodConnect && res.StatusCode/100 == 2 {
 			res.Close = false
 		}
+		// A 101 response switches protocols, the connection becomes a tunnel
+		// and must not be closed after the response head is written.
+		if res.StatusCode == http.StatusSwitchingProtocols {
+			res.Close = false
+		}
 	}
 
 	if res.Close {
